@@ -49,3 +49,16 @@ Definition refs_ordered (p : prog) (groups : list (N * N)) (h : N) : bool :=
   | Some sgs => chain_ok groups h 0 0 sgs
   | None => false
   end.
+
+(* programs with loop blocks: the blocks in program order, descending into the loop gates.  A root
+   loop runs its blocks at most once per tick in this order; a nested loop repeats its blocks, still
+   between the blocks before and after the loop *)
+Fixpoint instr_blocks (i : instr) : list subgraph :=
+  match i with
+  | IRun sg => [sg]
+  | IDecl _ => []
+  | IGate _ _ body _ => flat_map instr_blocks body
+  end.
+
+Definition refs_ordered_l (p : prog) (groups : list (N * N)) (h : N) : bool :=
+  chain_ok groups h 0 0 (flat_map instr_blocks (p_body p)).
